@@ -43,19 +43,25 @@ pub const CLUSTER_PROPS: &[PropSpec] = &[
         id: "C02",
         profiles: &[Election, Crash, Membership, Mixed, Transfer],
         quick_execs: 240_000,
-        floors: &[("c02.leaders_elected", 120000), ("crashes", 60000), ("c09.conf_entries_applied", 9000)],
+        floors: &[
+            ("c02.leaders_elected", 120000),
+            ("crashes", 60000),
+            ("c09.conf_entries_applied", 9000),
+            ("c02.stalled_apply_scenarios_grown", 100),
+        ],
         rule: "cluster engine, election-heavy profiles; a case is a node observed in the leader role checked against leader_of[term]; distinct by abstract state of the new leader (role history, log tail vs. commit, configuration shape)",
         counter_prefixes: &["c02.", "c03.requests", "c06.vote_grants", "crash", "restarts", "c09.conf_entries_applied", "c16.candidacies"],
     },
     PropSpec {
         id: "C03",
-        profiles: &[Election, Crash, Snapshot, Mixed],
+        profiles: &[Election, Crash, Snapshot, Mixed, Membership],
         quick_execs: 240_000,
         floors: &[
             ("c03.leader_starts_checked_nonempty", 30000),
             ("c03.grants_checked", 300000),
             ("c03.requests_checked", 600000),
             ("c03.vote_commit_fast_forwards", 300),
+            ("c02.stalled_apply_scenarios_grown", 100),
         ],
         rule: "cluster engine; cases are (a) leader starts checked against every entry committed by an earlier-term leader, (b) vote / pre-vote grants checked against the voter's own tail, (c) vote requests checked against the sender's tail; distinct by (message kind, relative tail position, role, term relation)",
         counter_prefixes: &["c03.", "c02.", "crash", "compactions"],
@@ -72,6 +78,7 @@ pub const CLUSTER_PROPS: &[PropSpec] = &[
             ("c04.nonleader_advance.heartbeat", 15000),
             ("c04.nonleader_advance.snapshot", 600),
             ("c04.nonleader_advance.vote_fast_forward", 600),
+            ("c04.regained_leadership_reached", 60),
         ],
         rule: "cluster engine with synchronous and asynchronous persistence; a case is a commit-index advance judged against the durable images of all nodes (leaders) or against what leaders committed (non-leaders); distinct by (holder count, configuration, operation, distance of commit from log end / persisted index)",
         counter_prefixes: &["c04.", "fsyncs", "crash", "c07.readys_with_two"],
@@ -185,6 +192,7 @@ pub const CLUSTER_PROPS: &[PropSpec] = &[
             ("c15.installs", 4500),
             ("c15.ignored_non_member", 300),
             ("c15.fast_forward_only", 90),
+            ("c15.ignored_stale", 900),
             ("c15.installs_joint_conf", 300),
             ("c15.installs_requested", 1500),
             ("compactions", 30000),
@@ -194,7 +202,7 @@ pub const CLUSTER_PROPS: &[PropSpec] = &[
     },
     PropSpec {
         id: "C16",
-        profiles: &[Lockstep, Election, Mixed, Crash],
+        profiles: &[Lockstep, Election, Mixed, Crash, Membership],
         quick_execs: 240_000,
         floors: &[
             ("c16.prevote_requests_stepped", 300000),
@@ -276,6 +284,98 @@ pub struct CheckArgs {
     pub replays: String,
     pub threads: usize,
     pub scale: f64,
+    /// This process is the checked-build (debug assertions + overflow checks) companion of a
+    /// release-build check: no floors, no companion of its own, terse output.
+    pub child: bool,
+}
+
+pub const CHECKED_BIN: &str = "/verif/harness/target/checked/rvmon";
+/// Properties whose quick tier also runs a slice under the checked build (the ones about
+/// internal checks and the components that carry debug assertions); thorough: all properties.
+pub const CHECKED_QUICK_PROPS: &[&str] = &["C13", "C14", "C18", "C20"];
+
+pub fn build_label() -> &'static str {
+    if cfg!(debug_assertions) {
+        "checked (release + debug-assertions + overflow-checks)"
+    } else {
+        "release"
+    }
+}
+
+/// Runs the same check, smaller, in the checked build as a child process. Returns the evidence
+/// fragment and the child's exit code (0 held, 1 violation, 3 inconclusive); `None` if not
+/// applicable. Violation lines of the child are passed through.
+pub fn run_checked_companion(a: &CheckArgs) -> Option<(Value, i32)> {
+    if a.child || cfg!(debug_assertions) {
+        return None;
+    }
+    if !a.thorough && !CHECKED_QUICK_PROPS.contains(&a.prop.as_str()) {
+        return None;
+    }
+    if !std::path::Path::new(CHECKED_BIN).exists() {
+        println!("NOTE checked build not available ({}); companion run skipped", CHECKED_BIN);
+        return Some((json!({"available": false}), 3));
+    }
+    let t0 = Instant::now();
+    let tmp = format!("{}.checked-build.tmp", a.out);
+    let scale = if a.thorough { 0.125 * a.scale } else { 0.25 * a.scale };
+    let out = std::process::Command::new(CHECKED_BIN)
+        .args([
+            "check",
+            "--prop",
+            &a.prop,
+            "--tier",
+            if a.thorough { "thorough" } else { "quick" },
+            "--seed",
+            &(a.seed.wrapping_add(7777)).to_string(),
+            "--out",
+            &tmp,
+            "--known",
+            &a.known,
+            "--replays",
+            &a.replays,
+            "--threads",
+            &a.threads.to_string(),
+            "--scale",
+            &scale.to_string(),
+            "--child",
+        ])
+        .output();
+    let out = match out {
+        Ok(o) => o,
+        Err(e) => {
+            println!("NOTE checked build companion could not start: {}", e);
+            return Some((json!({"available": true, "started": false}), 3));
+        }
+    };
+    let rc = out.status.code().unwrap_or(3);
+    let stdout = String::from_utf8_lossy(&out.stdout).to_string();
+    let mut pass_next = false;
+    for l in stdout.lines() {
+        if l.starts_with("VIOLATION ") || l.starts_with("HARNESS-ERROR") || l.starts_with("INCONCLUSIVE") {
+            println!("{}", l);
+            pass_next = l.starts_with("VIOLATION ");
+        } else if pass_next {
+            println!("{} [checked build]", l);
+            pass_next = false;
+        }
+    }
+    let child_ev: Value = std::fs::read_to_string(&tmp).ok().and_then(|t| serde_json::from_str(&t).ok()).unwrap_or(json!({}));
+    let _ = std::fs::remove_file(&tmp);
+    let frag = json!({
+        "available": true,
+        "build": "release profile with debug-assertions = true and overflow-checks = true (cargo --profile checked)",
+        "exit_code": rc,
+        "seed": a.seed.wrapping_add(7777),
+        "scale": scale,
+        "executions": child_ev["coverage"]["executions"],
+        "evaluations": child_ev["coverage"]["evaluations"],
+        "distinct_nontrivial": child_ev["coverage"]["distinct_nontrivial"],
+        "violations": child_ev["violations"],
+        "known_findings_observed": child_ev["coverage"]["known_findings_observed"],
+        "wall_s": t0.elapsed().as_secs_f64(),
+    });
+    Some((frag, rc))
 }
 
 pub fn counters_json(stats: &Stats, prefixes: &[&str]) -> Value {
@@ -307,6 +407,7 @@ pub fn write_replay(dir: &str, prop: &'static str, seed: u64, profile: Profile, 
         "cluster": r.desc,
         "reproduced_in_traced_rerun": r.violations.iter().any(|x| x.sig == v.sig),
         "history_tail": r.trace,
+        "build": build_label(),
         "replay_cmd": format!("/verif/check {} --replay {}", prop, path),
     });
     let _ = std::fs::write(&path, serde_json::to_string_pretty(&j).unwrap());
@@ -356,10 +457,11 @@ pub fn run_cluster_check(a: &CheckArgs, spec: &PropSpec) -> i32 {
             }
         });
         let t = total.as_ref().unwrap();
-        floors_met = spec
-            .floors
-            .iter()
-            .all(|(k, min)| t.stats.get(k) >= *min * floor_mult);
+        floors_met = a.child
+            || spec
+                .floors
+                .iter()
+                .all(|(k, min)| t.stats.get(k) >= *min * floor_mult);
         round += 1;
         if floors_met || round >= 3 || !t.failures.is_empty() && round >= 1 && floors_met {
             break;
@@ -383,7 +485,7 @@ pub fn run_cluster_check(a: &CheckArgs, spec: &PropSpec) -> i32 {
             }
         }
     }
-    for k in known.iter().filter(|k| k.property == spec.id) {
+    for k in known.iter().filter(|k| k.property == spec.id && !a.child) {
         let n = known_hits.get(&k.id).cloned().unwrap_or(0);
         println!(
             "KNOWN-FINDING: property={} {} [{}] ({})",
@@ -397,7 +499,7 @@ pub fn run_cluster_check(a: &CheckArgs, spec: &PropSpec) -> i32 {
             }
         );
     }
-    for (n, c) in &other_notes {
+    for (n, c) in other_notes.iter().filter(|_| !a.child) {
         println!("NOTE other-property {} x{}", n, c);
     }
     // distinct new violations by signature
@@ -436,6 +538,7 @@ pub fn run_cluster_check(a: &CheckArgs, spec: &PropSpec) -> i32 {
         })
         .collect();
     let distinct = t.stats.distinct_of(spec.id);
+    let companion = run_checked_companion(a);
     let ev = json!({
         "property_id": spec.id,
         "tier": if a.thorough { "thorough" } else { "quick" },
@@ -456,6 +559,8 @@ pub fn run_cluster_check(a: &CheckArgs, spec: &PropSpec) -> i32 {
             "time_capped": t.timed_out,
             "known_findings_observed": known_hits,
             "other_property_notes": other_notes,
+            "build": build_label(),
+            "checked_build_companion": companion.as_ref().map(|c| c.0.clone()),
             "samples": samples,
         },
         "assumptions": [
@@ -478,7 +583,7 @@ pub fn run_cluster_check(a: &CheckArgs, spec: &PropSpec) -> i32 {
         t0.elapsed().as_secs_f64(),
         floors_met
     );
-    if !seen.is_empty() {
+    if !seen.is_empty() || companion.as_ref().is_some_and(|c| c.1 == 1) {
         return 1;
     }
     if !t.harness_errors.is_empty() {
@@ -487,6 +592,12 @@ pub fn run_cluster_check(a: &CheckArgs, spec: &PropSpec) -> i32 {
     if !floors_met {
         println!("INCONCLUSIVE property={} monitor antecedents below their floors (see evidence file)", spec.id);
         return 3;
+    }
+    if let Some((_, rc)) = &companion {
+        if *rc != 0 {
+            println!("INCONCLUSIVE property={} the checked-build companion run did not complete (exit {})", spec.id, rc);
+            return 3;
+        }
     }
     0
 }
@@ -633,7 +744,7 @@ pub fn run_comp_check(a: &CheckArgs, spec: &CompSpec) -> i32 {
     let t0 = Instant::now();
     crate::sim::cluster::install_panic_hook();
     let known = load_known(&a.known);
-    let budget: u64 = if a.thorough { 8 } else { 1 };
+    let budget: u64 = if a.thorough && !a.child { 8 } else { 1 };
     // ---- native shards on threads
     let shards = a.threads.max(1) as u64;
     let mut handles = Vec::new();
@@ -672,6 +783,9 @@ pub fn run_comp_check(a: &CheckArgs, spec: &CompSpec) -> i32 {
         for i in 0..4 {
             plans.push(("asan", i, 4, 2));
         }
+    }
+    if a.child {
+        plans.clear();
     }
     if !plans.is_empty() {
         // build once (first shard alone), then the rest in parallel
@@ -742,14 +856,14 @@ pub fn run_comp_check(a: &CheckArgs, spec: &CompSpec) -> i32 {
     for (sig, det) in &tool_violations {
         seen.entry(sig.clone()).or_insert(det.clone());
     }
-    for k in known.iter().filter(|k| k.property == spec.id) {
+    for k in known.iter().filter(|k| k.property == spec.id && !a.child) {
         println!("KNOWN-FINDING: property={} {} [{}]", spec.id, k.what, k.id);
     }
     let _ = std::fs::create_dir_all(&a.replays);
     for (i, (sig, det)) in seen.iter().enumerate() {
         let path = format!("{}/{}-{}-{}-{}.json", a.replays, spec.id, spec.engine, a.seed, i);
         let j = json!({"property": spec.id, "engine": spec.engine, "seed": a.seed, "tier": if a.thorough {"thorough"} else {"quick"},
-            "signature": sig, "detail": det,
+            "signature": sig, "detail": det, "build": build_label(),
             "replay_cmd": format!("cd /verif/harness && ./target/release/rvmon comp --engine {} --seed {} --budget {} (the failing case is printed in 'detail')", spec.engine, a.seed, budget)});
         let _ = std::fs::write(&path, serde_json::to_string_pretty(&j).unwrap());
         println!("VIOLATION property={} replay={}", spec.id, path);
@@ -766,6 +880,7 @@ pub fn run_comp_check(a: &CheckArgs, spec: &CompSpec) -> i32 {
     for (k, v) in &total.stats.counters {
         counters.insert(k.to_string(), json!(v));
     }
+    let companion = run_checked_companion(a);
     let ev = json!({
         "property_id": spec.id,
         "tier": if a.thorough { "thorough" } else { "quick" },
@@ -774,6 +889,8 @@ pub fn run_comp_check(a: &CheckArgs, spec: &CompSpec) -> i32 {
         "wall_s": t0.elapsed().as_secs_f64(),
         "violations": seen.len(),
         "coverage": {
+            "build": build_label(),
+            "checked_build_companion": companion.as_ref().map(|c| c.0.clone()),
             "evaluations": total.cases,
             "operations_and_comparisons": total.ops,
             "distinct_nontrivial": distinct,
@@ -804,11 +921,17 @@ pub fn run_comp_check(a: &CheckArgs, spec: &CompSpec) -> i32 {
         distinct,
         t0.elapsed().as_secs_f64()
     );
-    if !seen.is_empty() {
+    if !seen.is_empty() || companion.as_ref().is_some_and(|c| c.1 == 1) {
         return 1;
     }
     if !harness_errors.is_empty() || !inconclusive.is_empty() || total.cases == 0 {
         return 3;
+    }
+    if let Some((_, rc)) = &companion {
+        if *rc != 0 {
+            println!("INCONCLUSIVE property={} the checked-build companion run did not complete (exit {})", spec.id, rc);
+            return 3;
+        }
     }
     0
 }
